@@ -86,6 +86,8 @@ def scope_model(F, placement, conflict=False):
             have = interp.mstate.get("maps_have", holders)
             has = sc in have
             cell = Ref(CELL_HOME[sc], [], frame="root")
+            # which primitive touched which scope's map is path state (a closure run by `find_map` / `position` is part of the path)
+            interp.mstate["prims"] = tuple(interp.mstate.get("prims", ())) + ((nm, a0.tag),)
             if nm == "contains_key":
                 return has
             if nm in ("get", "get_mut"):
@@ -152,6 +154,8 @@ def placement_eval(F, fn, placement, extra_args=(), conflict=False, want_paths=F
                 rets.add(("sym", r.tag))
             else:
                 rets.add(("?", None))
+        for pr in p.mstate.get("prims", ()):
+            prims.add(tuple(pr))
         for ev in p.events:
             if ev.kind == "call" and isinstance(ev.data[0], str) and ev.data[0].startswith(HM):
                 recv = ev.data[2][0] if ev.data[2] else None
@@ -270,6 +274,20 @@ def r3_ownership(ctx):
         if nm in ("get", "get_mut", "insert", "remove", "contains_key", "entry") and t["f"].get("self_adt") == "std::collections::hash::map::HashMap":
             e = f.body.expr_of_op(t["args"][1])
             ids = [x for x in subexprs(e) if x[0] == "call" and x[1] == "better_any::Tid::id"]
+            # a key computed once and captured by a closure (`let id = T::id(); successors(..).find_map(|s| s.map.get(&id))`)
+            cur, ex = f, e
+            for _ in range(3):
+                if ids or cur.kind != "Closure":
+                    break
+                from kinds import origin as _origin, closure_capture as _cc
+                leaf, _cs, fields = _origin(ex)
+                if leaf != ("arg", 1) or not fields:
+                    break
+                cap = _cc(F, cur, fields[0])
+                if not cap:
+                    break
+                cur, ex = cap
+                ids = [x for x in subexprs(ex) if x[0] == "call" and x[1] == "better_any::Tid::id"]
             ctx.check(len(ids) == 1 and ids[0][3]["f"].get("gargs") == ["T"], "C01.R3", f.key, nm + ":key", "map key is %s, not T::id() of the operation's own T" % expr_str(e), loc=f.loc(t.get("line")))
     ctx.count("statemap_primitive_call_sites", n)
     ctx.floor("C01.R3", "primitive operations on a state map", n, 8)
